@@ -259,6 +259,66 @@ Proof.
   pose proof (Qa_run _ _ _ _ HQ E3 Ex) as HQ3. unfold Qa in HQ3. congruence.
 Qed.
 
+Lemma node_answer_step : forall m m' n it, is_node_answer n it = true -> mon_step m it = MOk m' ->
+  a_await (aget (m_nodes m) n) = true /\ Qn m' n.
+Proof.
+  intros m m' a it Ha H. destruct it as [|e|]; try discriminate. destruct e; try discriminate; cbn in Ha; apply N.eqb_eq in Ha; subst; cbn in H;
+  destruct (a_await (aget (m_nodes m) a)) eqn:E; try discriminate; inversion H; (split; [reflexivity|]);
+  unfold Qn; cbn; rewrite aget_upd, N.eqb_refl; reflexivity.
+Qed.
+
+Lemma Qn_step : forall m m' a it, Qn m a -> mon_step m it = MOk m' -> is_node_submit a it = false -> Qn m' a.
+Proof.
+  intros m m' a it HQ H Hs. destruct it as [op|e|]; cbn in H.
+  - inversion H. unfold req_step.
+    assert (HQ0 : Qn (set_cur m (Some op) false) a) by exact HQ.
+    destruct op as [id cap dr|id cap|id|id|id|id q u f ng ph hd tm tx|id|r|app key ty| | | | |]; try exact HQ0.
+    + (* OpNodeAdd *) cbn in Hs. unfold Qn. cbn. rewrite aget_upd, (N.eqb_sym a id), Hs. exact HQ.
+    + (* OpNodeRemove *)
+      destruct (a_live _); [|exact HQ0]. unfold Qn. cbn. rewrite aget_upd.
+      destruct (a =? id) eqn:E; [|exact HQ]. apply N.eqb_eq in E. subst. cbn. exact HQ.
+    + (* OpAppRemove *) destruct (a_live _); exact HQ0.
+    + (* OpAlloc *) destruct (rq_foreign r); [exact HQ0|]. destruct (k_live _); [destruct (_ && _ && _)|]; exact HQ0.
+    + (* OpRelease *) destruct (app =? 0); [exact HQ0|]. destruct (key =? 0); [exact HQ0|]. destruct (_ && _ && _); exact HQ0.
+  - destruct e as [key app node r p|key app ty|app|app|app st|node|node|key app]; cbn in H.
+    + ok_or_err H. inversion H. exact HQ.
+    + case_if H; [discriminate|].
+      case_if H; [case_if H; [case_if H; [discriminate|]|]|]; inversion H; exact HQ.
+    + case_if H; [|discriminate]. inversion H. exact HQ.
+    + case_if H; [|discriminate]. inversion H. exact HQ.
+    + case_if H; inversion H; [|subst; exact HQ]. exact HQ.
+    + case_if H; [|discriminate]. inversion H. unfold Qn. cbn. rewrite aget_upd. destruct (a =? node); [reflexivity|exact HQ].
+    + case_if H; [|discriminate]. inversion H. unfold Qn. cbn. rewrite aget_upd. destruct (a =? node); [reflexivity|exact HQ].
+    + destruct (m_cur m) as [[id cap dr|id cap|id|id|id|id q u f ng ph hd tm tx|id|r|ap ky ty| | | | |]|]; try discriminate.
+      case_if H; [|discriminate].
+      case_if H; [inversion H; exact HQ|]. case_if H; inversion H; exact HQ.
+  - unfold end_step in H. ok_or_err H. inversion H. exact HQ.
+Qed.
+
+Lemma Qn_run : forall t m m' a, Qn m a -> mon_run m t = MOk m' -> existsb (is_node_submit a) t = false -> Qn m' a.
+Proof.
+  induction t as [|it r IH]; intros m m' a HQ H Hs; cbn in *.
+  - inversion H. now subst.
+  - apply orb_false_iff in Hs as [Hs1 Hs2]. destruct (mon_step m it) as [m0|c] eqn:E; [|discriminate].
+    eapply IH; [|exact H|exact Hs2]. eapply Qn_step; eassumption.
+Qed.
+
+(* the same for nodes *)
+Theorem answer_once_node : forall t1 t2 n x y,
+  is_node_answer n x = true -> is_node_answer n y = true ->
+  monitor_ok (t1 ++ x :: t2 ++ [y]) = true -> existsb (is_node_submit n) t2 = true.
+Proof.
+  intros t1 t2 a x y Hx Hy H. unfold monitor_ok in H.
+  destruct (mon_run mon_init _) as [mf|c] eqn:E; [|discriminate].
+  apply mon_run_app in E as [m1 [_ E]]. cbn [mon_run] in E.
+  destruct (mon_step m1 x) as [m2|c] eqn:S1; [|discriminate].
+  apply mon_run_app in E as [m3 [E3 E4]]. cbn [mon_run] in E4.
+  destruct (mon_step m3 y) as [m4|c] eqn:S2; [|discriminate].
+  destruct (existsb (is_node_submit a) t2) eqn:Ex; [reflexivity|exfalso].
+  apply (node_answer_step _ _ _ _ Hx) in S1 as [_ HQ]. apply (node_answer_step _ _ _ _ Hy) in S2 as [Hw _].
+  pose proof (Qn_run _ _ _ _ HQ E3 Ex) as HQ3. unfold Qn in HQ3. congruence.
+Qed.
+
 (* every submission is answered before its request ends: an accepted trace has no pending answer after IEnd *)
 Lemma existsb_await_false : forall (l : list (N * ainfo)) a,
   existsb (fun p => a_await (snd p)) l = false -> a_await (aget l a) = false.
@@ -374,7 +434,6 @@ Proof.
       case_if H; [case_if H; [case_if H; [discriminate|]|]|]; inversion H;
         (split; [|split; [exact HA'|exact HN']]); cbn; apply keys_upd_inv; try exact HK'; cbn;
         try (intros _; apply (kget_live_asked m); [exact HK'|exact Ev]).
-      unfold k_live. cbn. discriminate.
     + (* EAppAccepted *)
       case_if H; [|discriminate]. inversion H. split; [exact HK'|split; [|exact HN']]. intros a. cbn. rewrite aget_upd.
       destruct (a =? app) eqn:E; [|apply HA']. intros _. apply N.eqb_eq in E. subst. apply in_or_app. right. now left.
